@@ -1,10 +1,11 @@
 """C12 - context activation is scoped, stack-like, atomic and leaves no residue.
 
 1. TLC law run  : MC_Pint (PintRegistry.tla): all operation sequences up to length 4 (quick) / 5 (thorough) over
-                  enable / disable / with-enter / with-exit (normal, by exception) / define / default-system / query with
+                  enable / enable of two names in one call / disable / with-enter (one or two names) / with-exit (normal, by exception) / define /
+                  default-system / query with
                   a pool of contexts (rules with parameter, redefinition, both, ill-formed): StackDiscipline, AtomicFailure,
                   NoResidue, Transparent as action properties.
-2. spec -> code : every behaviour of length 3 (exhaustive, with the expected stack and probe vector after each step in the
+2. spec -> code : every behaviour of length 3 (quick: all without a two-name step and a fixed quarter of those with one; exhaustive, with the expected stack and probe vector after each step in the
                   history variable) and simulated behaviours of length 8 are executed on a fresh real registry with real
                   with-blocks and real exceptions; after *every* step the stack and all probes are compared.
    Context objects (defaults, redefinitions, rule tables) must be unchanged by activation, also when shared by two registries.
@@ -23,7 +24,7 @@ def generate(chk, thorough):
     dump = os.path.join(wd, "pint.dump")
     g = chk.tlc("gen", "MC_Pint", "MC_Pint_gen.cfg", wd=wd, args=["-dump", dump], count=False)
     const = pm.parse_const(g.out)
-    behs = pm.behaviours_from_dump(dump, 3)
+    behs = pm.thin_two_name(pm.behaviours_from_dump(dump, 3), thorough)
     os.remove(dump)
     if len(behs) < 500:
         raise MachineryError("generator produced only %d behaviours" % len(behs))
@@ -56,7 +57,7 @@ def run(chk):
         st = pm.Stepper(model)
         names = list(model.c["ctxs"])
         snap0 = ctx_snapshot(st.u, names)
-        chk.case(opkey, nontrivial=any(h["op"][0] in ("enable", "with_enter") for h in hist0),
+        chk.case(opkey, nontrivial=any(h["op"][0] in ("enable", "with_enter", "enable2", "with_enter2") for h in hist0),
                  sample={"ops": [h["op"] for h in hist0], "final_stack": [a["ctx"] for a in hist0[-1]["stack"]]})
         alive = list(variants)
         masked = set()          # probe keys already reported as a known finding in this behaviour: later steps still checked
@@ -97,7 +98,7 @@ def run(chk):
         if ctx_snapshot(st.u, names) != snap0:
             chk.diverge({"clause": "context-object-modified"}, {"ops": [x["op"] for x in hist0]})
     chk.traces += len(behs) + len(sims)
-    if not {"enable", "disable", "with_enter", "with_exit", "define", "setsys", "query"} <= ops_seen:
+    if not {"enable", "enable2", "disable", "with_enter", "with_enter2", "with_exit", "define", "setsys", "query"} <= ops_seen:
         raise MachineryError("vacuous generator: operations seen %s" % sorted(ops_seen))
     # code -> spec: long random histories on real registries, every step's full probe vector validated by Trace_Pint
     events, _ = pm.random_histories(model, rng, 400 if thorough else 60, 25, dense=True)
